@@ -150,7 +150,12 @@ class CellInvariant:
                 return orig(self_, bits, refs, cell_type)
             try:
                 snap_bits = bits.to01()
-                snap_refs = list(refs)
+                if not isinstance(refs, (list, tuple)):
+                    # a one-shot iterable (generator, iterator, map): look at it once and hand the library a one-shot iterable over the same objects
+                    snap_refs = list(refs)
+                    refs = iter(snap_refs)
+                else:
+                    snap_refs = list(refs)
             except Exception:
                 snap_bits, snap_refs = None, None
             orig(self_, bits, refs, cell_type)
